@@ -41,3 +41,7 @@ contract(F, "lemma_sum_pointwise", props=["C10"], lemma=True,
          params={"a": Seq(Int), "b": Seq(Int)},
          requires=["len(a) == len(b)", "forall(lambda i: implies(0 <= i and i < len(a), a[i] == b[i]))"],
          ensures=["sum(a) == sum(b)"], decreases="len(a)")
+
+contract(F, "lemma_sum_nonneg", props=["C09", "C10"], lemma=True,
+         params={"t": Seq(Int)}, requires=["forall(lambda j: implies(0 <= j and j < len(t), 0 <= t[j]))"],
+         ensures=["0 <= sum(t)"], decreases="len(t)")
